@@ -100,6 +100,28 @@ def quarantine(gen_text, names):
     return "".join(out)
 
 
+def rename_colliding(ext_text, ghost_src, master_src):
+    """A function that is new in /repo may have the name of a ghost (spec) function of the contracts (`removed`,
+    `hw`, `idx`, `wf`, ...): the generated file would then define the name twice.  Such a name is renamed
+    consistently in the *extracted* text (which holds no ghost code) before the contracts are spliced on."""
+    from . import rtok, splice as _sp
+    ghost = set(re.findall(r"\b(?:spec|proof)\s+fn\s+([A-Za-z_][A-Za-z_0-9]*)", ghost_src + master_src))
+    have = set(re.findall(r"\bfn\s+([A-Za-z_][A-Za-z_0-9]*)", master_src))
+    new_fns = set(re.findall(r"\bfn\s+([A-Za-z_][A-Za-z_0-9]*)", ext_text)) - have
+    clash = sorted(ghost & new_fns)
+    if not clash:
+        return ext_text, []
+    toks = rtok.tokenize(ext_text)
+    out, pos = [], 0
+    for t in toks:
+        if t.kind == "id" and t.text in clash:
+            out.append(ext_text[pos:t.start])
+            out.append(t.text + "_repo")
+            pos = t.end
+    out.append(ext_text[pos:])
+    return "".join(out), ["%s -> %s_repo" % (c, c) for c in clash]
+
+
 def generate(features=("std",), tag="std", quarantined=()):
     """returns dict(gen_path, gen_text, extraction, splice)"""
     ext_text, ext_report = extract(features, tag)
@@ -107,6 +129,10 @@ def generate(features=("std",), tag="std", quarantined=()):
     pre = "".join(parts[f] for f in sorted(parts) if f < "20_")
     code = parts["20_code.rs"]
     post = "".join(parts[f] for f in sorted(parts) if f > "20_code.rs")
+    ext_text, renamed = rename_colliding(ext_text, pre, code)
+    if renamed:
+        ext_report = dict(ext_report)
+        ext_report["renamed_to_avoid_ghost_names"] = renamed
     try:
         gen_code, srep = splice.splice("", code, ext_text, set(), quarantined=dict(quarantined) if isinstance(quarantined, dict) else {q: 1 for q in quarantined})
     except splice.SpliceError as e:
@@ -520,7 +546,7 @@ def explore(seed=1, budget_ms=12000, replay_ops=None):
             else:
                 cmd = [binp, "explore", str(seed), str(int(budget_ms * share))]
             try:
-                q = subprocess.run(cmd, stdout=subprocess.PIPE, stderr=subprocess.PIPE, text=True, timeout=budget_ms / 1000.0 * share + 120)
+                q = subprocess.run(cmd, stdout=subprocess.PIPE, stderr=subprocess.PIPE, text=True, timeout=budget_ms / 1000.0 * share * 26 + 120)
                 line = [l for l in q.stdout.splitlines() if l.startswith("{")]
                 j = json.loads(line[-1]) if line else {"violations": [], "sequences": 0, "operations": 0, "error": q.stderr[-500:]}
             except subprocess.TimeoutExpired:
